@@ -8,7 +8,7 @@ S=/verif/seeded/$1; shift
 WT=/tmp/wt-seed2-$$; V=/tmp/verif-seed2-$$
 git -C /repo worktree add --detach $WT HEAD -q || exit 2
 mkdir -p $V && cp /verif/known_findings.json $V/
-( cd $WT && git apply $S/patch.diff ) || { echo "patch does not apply"; git -C /repo worktree remove --force $WT; exit 3; }
+( cd $WT && { git apply $S/patch.diff 2>/dev/null || git apply $S/patch_rebased.diff; } ) || { echo "patch does not apply"; git -C /repo worktree remove --force $WT; exit 3; }
 for P in "$@"; do
   echo "CHECK $P on seeded tree:"
   /tmp/p2pverif -property $P -repo $WT -verif $V 2>&1 | grep -v KNOWN-FINDING | grep -v "^VIOLATION" | cut -c1-420 | tail -5
